@@ -73,13 +73,6 @@ Proof.
   - apply delete_post_rest.
 Qed.
 
-(* finality is monotone along the log: an earlier output of the same bridge is final whenever a
-   later one is *)
-Lemma is_final_time x e o o' : (o_time o ≤ o_time o')%Z → is_final x e o' = true → is_final x e o = true.
-Proof.
-  unfold is_final, second. intros Hle Hf. apply Z.leb_le in Hf. apply Z.leb_le.
-  etrans; [|exact Hf]. apply Z.div_le_mono; lia.
-Qed.
 
 Lemma c11_final_prefix s e b x i j oj :
   log_ok s b → configs s !! b = Some x → outputs s !! (b, j) = Some oj → is_final x e oj = true →
